@@ -42,6 +42,7 @@ type scriptConn struct {
 	wcalls   int
 	pulled   int // bytes handed out by Read
 	waiting  bool // a Read is blocked with every scripted segment handed out
+	coalesce bool // deliver the last bytes before a terminal event together with its error: (n > 0, err)
 	laddr    net.Addr
 	raddr    net.Addr
 }
@@ -83,6 +84,16 @@ func (c *scriptConn) Read(p []byte) (int, error) {
 				n := copy(p, ev.data[c.off:])
 				c.off += n
 				c.pulled += n
+				if c.coalesce && c.released && c.off >= len(ev.data) && c.pos+1 < len(c.evs) && c.evs[c.pos+1].kind != 0 {
+					// the io.Reader contract allows the final bytes to come with the error (crypto/tls does it
+					// when close_notify arrives with the last record)
+					c.pos++
+					c.off = 0
+					if c.evs[c.pos].kind == 1 {
+						return n, io.EOF
+					}
+					return n, errScripted
+				}
 				return n, nil
 			case 1:
 				if c.released {
